@@ -50,6 +50,9 @@ class SSH_Socket(ReadBuf, WriteBuf):
     class InsufficientReadException(Exception):
         pass
 
+    class InvalidPacketException(Exception):
+        pass
+
     SM_BANNER_SENT = 1
 
     def __init__(self, outputbuffer: 'OutputBuffer', host: Optional[str], port: int, ip_version_preference: List[int] = [], timeout: Union[int, float] = 5, timeout_set: bool = False) -> None:  # pylint: disable=dangerous-default-value
@@ -275,23 +278,25 @@ class SSH_Socket(ReadBuf, WriteBuf):
                 payload_length = packet_length - padding_length - 1
                 check_size = 4 + 1 + payload_length + padding_length
             if check_size % self.__block_size != 0:
-                self.__outputbuffer.fail('[exception] invalid ssh packet (block size)').write()
-                sys.exit(exitcodes.CONNECTION_ERROR)
+                raise SSH_Socket.InvalidPacketException('[exception] invalid ssh packet (block size)')
             self.ensure_read(payload_length)
             if sshv == 1:
+                if payload_length < 5:
+                    raise SSH_Socket.InvalidPacketException('[exception] invalid ssh packet (length)')
                 payload = self.read(payload_length - 4)
                 header.write(payload)
                 crc = self.read_int()
                 header.write_int(crc)
             else:
+                if payload_length < 1:
+                    raise SSH_Socket.InvalidPacketException('[exception] invalid ssh packet (length)')
                 payload = self.read(payload_length)
                 header.write(payload)
             packet_type = ord(payload[0:1])
             if sshv == 1:
                 rcrc = SSH1.crc32(padding + payload)
                 if crc != rcrc:
-                    self.__outputbuffer.fail('[exception] packet checksum CRC32 mismatch.').write()
-                    sys.exit(exitcodes.CONNECTION_ERROR)
+                    raise SSH_Socket.InvalidPacketException('[exception] packet checksum CRC32 mismatch.')
             else:
                 self.ensure_read(padding_length)
                 padding = self.read(padding_length)
